@@ -34,3 +34,10 @@ Theorem C07_thats_all_then_rounds : forall sar hjr nh ok fits k k' act,
   snr_ctl sar hjr nh ok fits k = Ok (k', act) -> k_rows_left k = Some 0%Z ->
   k_rounds k' = true /\ k_rows_left k' = None.
 Proof. exact thats_all_then_rounds. Qed.
+
+From Wh Require Import Parse Glue GlueP.
+From Coq Require Import ZArith QArith.
+
+(* stop-at-rounds is -s or -H on the command line, and always on in server mode *)
+Theorem C07_stop_at_rounds_flag : forall c cfg, console_cfg c = Ok cfg -> bc_sar cfg = (cl_sar c || cl_handbell c).
+Proof. exact stop_at_rounds_flag. Qed.
